@@ -17,6 +17,10 @@ def therm(kind, method="tangent", order=None, fresh=False):
     if fresh or key not in _OBJ:
         if kind == "alzr":
             t = BinaryThermodynamics(ALZR_TDB, ["AL", "ZR"], ["FCC_A1", "AL3ZR"], drivingForceMethod=method)
+        elif kind == "fecrni":
+            # two phases that BOTH carry mobility data: diffusivities can be asked for the non-matrix phase
+            from kawin.tests.datasets import FECRNI_DB
+            t = MulticomponentThermodynamics(FECRNI_DB, ["FE", "CR", "NI"], ["FCC_A1", "BCC_A2"], drivingForceMethod=method)
         else:
             t = MulticomponentThermodynamics(NICRAL_TDB, list(order or ["NI", "CR", "AL"]), ["FCC_A1", "FCC_L12"], drivingForceMethod=method)
         t.setDFSamplingDensity(2000)
@@ -80,8 +84,28 @@ def ternary_alphabet():
     return A
 
 
+def two_phase_alphabet():
+    """Fe-Cr-Ni: driving force and the diffusivities of the matrix phase AND of the second phase"""
+    xs = [(0.25, 0.10), (0.22, 0.12)]
+    Ts = [1100.0, 1050.0]
+    A = []
+    for x in xs:
+        for T in Ts[:1] + ([Ts[1]] if x == xs[1] else []):
+            A.append(("df", (x, T)))
+            for ph in ("FCC_A1", "BCC_A2"):
+                A.append(("interdiffP", (x, T, ph)))
+                A.append(("tracerP", (x, T, ph)))
+    return A
+
+
 def do_query(t, kind, point, remove):
     """returns (answer, argument intact?)"""
+    if kind in ("interdiffP", "tracerP"):
+        x, T, ph = point
+        xa = np.array(x, dtype=float)
+        keep = xa.copy()
+        out = (t.getInterdiffusivity if kind == "interdiffP" else t.getTracerDiffusivity)(xa, T, removeCache=remove, phase=ph)
+        return out, bool(np.array_equal(xa, keep))
     if kind in ("df", "interdiff", "tracer", "curv", "imping"):
         x, T = point
         xa = np.array(x, dtype=float) if isinstance(x, tuple) else x
@@ -182,6 +206,29 @@ def run_history(system, h, memo):
                     e["vsbatch"] = vcmp(np.array([[a[0], a[1]] for a in alone]).T, np.array([np.atleast_1d(out[0]), np.atleast_1d(out[1])]))
             first.setdefault(key, out)
             ev.append(e)
+    except Exception as ex:  # noqa
+        ev.append({"e": "exception", "msg": "%s: %s" % (type(ex).__name__, str(ex)[:200])})
+    return ev
+
+
+def method_switch_history():
+    """the driving-force method is switched on a long-lived object whose caches were kept: the next answer must be the one an object
+    built with that method gives (events in the ThermoCache format)"""
+    ms = ["tangent", "sampling", "approximate"]
+    x, T = 0.004, 673.15
+    ref = {m: therm("alzr", m, fresh=True).getDrivingForce(x, T, removeCache=True) for m in ms}
+    ev = [{"e": "init"}]
+    try:
+        for m1 in ms:
+            for m2 in ms:
+                if m1 == m2:
+                    continue
+                t = therm("alzr", m1, fresh=True)
+                t.getDrivingForce(x, T)                       # caches kept (the default)
+                t.setDrivingForceMethod(m2)
+                out = t.getDrivingForce(x, T)
+                ev.append({"e": "query", "kind": "df after switching %s -> %s" % (m1, m2), "point": str((x, T)), "remove": False,
+                           "vsmemo": vcmp(out, ref[m2]), "vsfirst": "eq", "argintact": True})
     except Exception as ex:  # noqa
         ev.append({"e": "exception", "msg": "%s: %s" % (type(ex).__name__, str(ex)[:200])})
     return ev
